@@ -78,14 +78,24 @@ def stripe_cell(alpha, syms, R, r, c):
     return syms[p] if p < len(syms) else K_of(alpha) - 1
 
 
+_FLOATS = {}
+
+
 def score_at(alpha, pssm_bits, syms, p):
-    """Σ_j m[j][s[p+j]], the wildcard past the end of the sequence; left fold from +0.0 in f32"""
+    """Σ_j m[j][s[p+j]], the wildcard past the end of the sequence; left fold from +0.0.  The matrices of
+    this module hold small integers and -inf only, so the f32 sum is exact and equals the f64 sum."""
     K = K_of(alpha)
+    key = id(pssm_bits)
+    fl = _FLOATS.get(key)
+    if fl is None or fl[0] is not pssm_bits:
+        fl = (pssm_bits, [[bits_f32(v) for v in row] for row in pssm_bits])
+        _FLOATS.clear()
+        _FLOATS[key] = fl
     acc = 0.0
-    for j, row in enumerate(pssm_bits):
+    n = len(syms)
+    for j, row in enumerate(fl[1]):
         q = p + j
-        a = syms[q] if q < len(syms) else K - 1
-        acc = r32(acc + bits_f32(row[a]))
+        acc += row[syms[q] if q < n else K - 1]
     return f32_bits(acc)
 
 
